@@ -756,8 +756,8 @@ TIERS = {
     # runs: seeded composed-fault runs; produce: (n_xdis, n_stdlib) per producer
     "quick": {"runs": 45000, "other_host_runs": 3000, "produce": (3, 3), "sweep_prefix_files": 0,
               "sweep_bytes_files": 0, "wall_cap": 100},
-    "thorough": {"runs": 1500000, "other_host_runs": 200000, "produce": (30, 40), "sweep_prefix_files": -1,
-                 "sweep_bytes_files": -1, "wall_cap": 3000},
+    "thorough": {"runs": 600000, "other_host_runs": 60000, "produce": (30, 40), "sweep_prefix_files": -1,
+                 "sweep_bytes_files": -1, "wall_cap": 900, "sweep_wall_cap": 3300},
 }
 
 
@@ -1048,7 +1048,9 @@ def main(opts):
     sweep = {"prefix_evals": 0, "byte_evals": 0, "violations": [], "outcomes": {}, "files_prefix": 0,
              "files_bytes": 0, "exhaustive_prefix": False}
     if cfg["sweep_prefix_files"]:
-        sweep = run_sweeps(cfg, workers, t0)
+        cfg2 = dict(cfg)
+        cfg2["wall_cap"] = cfg.get("sweep_wall_cap", cfg["wall_cap"])
+        sweep = run_sweeps(cfg2, workers, t0)
     # ---- violations
     findings = core.load_known_findings()
     lines = []
@@ -1170,7 +1172,19 @@ def digest_run(master, nruns, workers, shard=40):
 
 def run_sweeps(cfg, workers, t0):
     bases = W["bases"]
-    order = sorted(range(len(bases)), key=lambda k: (len(bases[k].data), bases[k].path))
+    # every repo file, plus the three smallest files of every producer (these bring 3.13 and every host's own magic)
+    per_tag = {}
+    chosen = []
+    for k in sorted(range(len(bases)), key=lambda k: (len(bases[k].data), bases[k].path)):
+        b = bases[k]
+        if b.origin == "repo":
+            chosen.append(k)
+        else:
+            tag = b.origin.split(":")[1]
+            if per_tag.get(tag, 0) < 3 and ".ts." in b.name:
+                per_tag[tag] = per_tag.get(tag, 0) + 1
+                chosen.append(k)
+    order = sorted(chosen, key=lambda k: (len(bases[k].data), bases[k].path))
     out = {"prefix_evals": 0, "byte_evals": 0, "violations": [], "outcomes": {}, "files_prefix": 0, "files_bytes": 0,
            "exhaustive_prefix": False, "sites": {}}
     CH = 4096
@@ -1202,6 +1216,7 @@ def run_sweeps(cfg, workers, t0):
                     out["sites"][k] = out["sites"].get(k, 0) + v
         if kind == "prefix":
             out["files_prefix"] = len(files)
+            out["bytes_in_swept_files"] = sum(len(bases[k].data) for k in files)
             out["exhaustive_prefix"] = complete and lim < 0
         else:
             out["files_bytes"] = len(files)
